@@ -2,8 +2,56 @@
 import types as pytypes
 
 
+def h_hashseed(rp):
+    """run the parser and the scorer pipeline in sub-processes that differ only in PYTHONHASHSEED and compare
+    everything they print (scores with full precision, candidates in stream order) byte by byte"""
+    import os
+    import subprocess
+    import sys
+    prog = r'''
+import warnings; warnings.simplefilter("ignore")
+from datetime import datetime
+from ctparse import ctparse_gen
+from ctparse.nb_scorer import train_naive_bayes
+ts = datetime(2018, 3, 7, 12, 43)
+for t in ["tomorrow 8pm", "May 5th 2021 5:30pm - 6:45pm", "monday or tuesday 9-5", "heute 17 uhr bis morgen 9 uhr", "1.2.2020 - 3.2.2020 for 2 days",
+          "next friday 12:30 - 14:00 #work", "am 5. märz um 8 uhr", "in 2 weeks at noon"]:
+    for p in ctparse_gen(t, ts, timeout=0):
+        print(repr(t), repr(p.score), p.resolution, p.production)
+X = [["a", "b", "c", "d"], ["b", "c", "e", "f", "g"], ["a", "g", "h"], ["c", "d", "e", "i", "j", "k"], ["k", "a"]]
+y = [True, False, True, False, True]
+m = train_naive_bayes(X, y)
+for q in X + [["a", "b", "c", "d", "e", "f", "g", "h", "i", "j", "k"], ["z"]]:
+    print(q, [repr(v) for v in m.predict_log_proba([q])[0]])
+'''
+    outs = {}
+    for seed in ("0", "1", "2", "3", "4", "12345"):
+        env = dict(os.environ, PYTHONHASHSEED=seed, PYTHONDONTWRITEBYTECODE="1")
+        p = subprocess.run([sys.executable, "-W", "ignore", "-c", prog], env=env, capture_output=True, text=True, timeout=600)
+        outs[seed] = p.stdout if p.returncode == 0 else "CRASH " + p.stderr[-500:]
+    ref = outs["0"]
+    diff = None
+    for seed, o in outs.items():
+        if o != ref:
+            la, lb = ref.splitlines(), o.splitlines()
+            for i in range(max(len(la), len(lb))):
+                x, y2 = (la[i] if i < len(la) else None), (lb[i] if i < len(lb) else None)
+                if x != y2:
+                    diff = {"PYTHONHASHSEED": ["0", seed], "first_differing_line": [x, y2]}
+                    break
+            break
+    out = {"func": rp["func"], "clause": rp["clause"], "confirmed": diff is not None}
+    if diff:
+        out["failing_input"] = diff
+    return out
+
+
 def replay(rp):
     func = rp["func"]
+    if rp.get("clause") == "writes-no-module-level-state":
+        return h_frame_history(rp)
+    if rp.get("clause") == "iterates-no-set-in-hash-order":
+        return h_hashseed(rp)
     for prefix, h in HANDLERS:
         if func.startswith(prefix):
             return h(rp)
@@ -219,7 +267,14 @@ def h_ctparse(rp):
             return None
         if isinstance(v, dict) and v.get("kind") == "CTParse":
             a = v["attrs"]
-            return C.CTParse("res:" + v.get("label", ""), ("r",), a.get("score"), "subj", ["l"])
+            r = a.get("resolution")
+            if isinstance(r, dict) and r.get("kind") == "Time":
+                import ctparse.types as T
+                res = T.Time(hour=(r.get("attrs") or {}).get("hour"))
+                res.mstart, res.mend = r.get("mstart") or 0, r.get("mend") or 1
+            else:
+                res = "res:" + v.get("label", "")
+            return C.CTParse(res, ("r",), a.get("score"), "subj", ["l"])
         return v
     objs = [real(x) for x in (stream or [])]
     seen = {}
